@@ -43,7 +43,7 @@ def T(codes):
 def thorough_wrapper(rnd):
     """MC module for the thorough tier: all boundary columns / rows, sampled
     coordinates, a richer sheet-name alphabet with names of up to 4
-    characters; a second configuration walks the 4x4 grid."""
+    characters (the 4x4 grid is the static Address_big.cfg)."""
     d = tlc.new_scratch('address')
     rc = sorted(rnd.sample(range(2, MAX_COL - 3), 4))
     rr = sorted(rnd.sample(range(3, MAX_ROW - 3), 4))
@@ -63,9 +63,6 @@ TAlphabet == MCAlphabet \\cup {{98, 46}}
 TMaxName == 4
 TBigCols == {{1, 26, 27, 702, 703, 16384, {bc}}}
 TBigRows == {{1, 2, 1048576, {br}}}
-T4Modes == {{"pair", "triple"}}
-T4Cols == 1..4
-T4Export == FALSE
 ====
 ''')
     base = open(os.path.join(tlc.SPEC, 'Address_mc.cfg')).read()
@@ -75,12 +72,6 @@ T4Export == FALSE
         cfg1 = cfg1.replace(f'<- MC{name}\n', f'<- T{name}\n')
     with open(os.path.join(d, 'T.cfg'), 'w') as f:
         f.write(cfg1)
-    cfg2 = (base.replace('<- MCModes\n', '<- T4Modes\n')
-            .replace('<- MCSmallCols\n', '<- T4Cols\n')
-            .replace('<- MCSmallRows\n', '<- T4Cols\n')
-            .replace('<- MCExportTriples\n', '<- T4Export\n'))
-    with open(os.path.join(d, 'T4.cfg'), 'w') as f:
-        f.write(cfg2)
     return d
 
 
@@ -709,7 +700,6 @@ def run(tier, seed):
             raise tlc.MachineryFailure(
                 f'export incomplete: {len(vectors)} vectors for {res.distinct} states')
         vec4 = None
-        grid = 3
     else:
         d = thorough_wrapper(rnd)
         res, vectors = run_tlc('Address_T', 'MC_AddressT', os.path.join(d, 'T.cfg'), d,
@@ -717,12 +707,11 @@ def run(tier, seed):
         if len(vectors) < res.distinct:
             raise tlc.MachineryFailure(
                 f'export incomplete: {len(vectors)} vectors for {res.distinct} states')
-        res4, vec4 = run_tlc('Address_T4 (4x4 grid)', 'MC_AddressT', os.path.join(d, 'T4.cfg'),
-                             d, v, ACTIONS[4:], workers=16)
+        res4, vec4 = run_tlc('Address_big (4x4 grid)', 'MC_Address', 'Address_big.cfg',
+                             tlc.SPEC, v, ACTIONS[4:], workers=16)
         if res4.distinct != 10 ** 4 + 10 ** 6 or len(vec4) < 10 ** 4:
             raise tlc.MachineryFailure(
                 f'4x4 run: {res4.distinct} states, {len(vec4)} pair vectors')
-        grid = 3
     t_tlc = time.time() - t0
     by = {}
     for vec in vectors:
@@ -747,9 +736,10 @@ def run(tier, seed):
     timed('coord formulas', drv.drive_coord_formulas, by['coord'])
     timed('sheet workbooks', drv.drive_sheet_workbooks, names)
     timed('pairs', drv.drive_pairs, by['pair'], True)
-    timed('pair formulas', drv.drive_pair_formulas, by['pair'], grid)
+    timed('pair formulas', drv.drive_pair_formulas, by['pair'], 3)
     timed('big pairs', drv.drive_pairs, by['big'], False)
-    n3 = timed('triples', drv.drive_triples, 
+    n3 = timed(
+        'triples', drv.drive_triples,
         ((tuple(t['a']), tuple(t['b']), tuple(t['c']), tuple(t['inter']), tuple(t['union']))
          for t in by['triple']),
         budget=1500 / 36 ** 3 if tier == 'quick' else 6000 / 36 ** 3, n=3)
